@@ -99,6 +99,16 @@ theorem fromSeed_injective_of_ne_zero {σ : Type} (g : XoGen σ) (sh : C08.Shape
   · exact absurd h2 hzb
   · rw [h1, h2]
 
+/-- the hypotheses of the corollary are satisfiable by two different seeds (and then the generators
+    differ) -/
+example :
+    (List.replicate 7 0 ++ [1] : List U8).length = Xoroshiro64Star.gen.seedLen ∧
+    (List.replicate 7 0 ++ [1] : List U8) ≠ zeroSeed Xoroshiro64Star.gen.seedLen ∧
+    (List.replicate 7 0 ++ [2] : List U8) ≠ zeroSeed Xoroshiro64Star.gen.seedLen ∧
+    Xoroshiro64Star.gen.fromSeed? (List.replicate 7 0 ++ [1]) ≠
+      Xoroshiro64Star.gen.fromSeed? (List.replicate 7 0 ++ [2]) := by
+  decide +kernel
+
 /-- the statement for one generator -/
 def FromSeedSpec {σ : Type} (g : XoGen σ) : Prop :=
   ∀ a b : List U8, a.length = g.seedLen → b.length = g.seedLen →
@@ -367,6 +377,29 @@ theorem seedFromU64_64_injective (x y : U64) (h : seedFromU64_64 x = seedFromU64
   rw [seedFromU64_64, seedFromU64_64, BlockRng64.new, BlockRng64.new, BlockRng64.mk.injEq] at h
   exact seedFromU64Core64_mem_injective x y (congrArg Core.mem h.2.2.2)
 
+/-- **`IsaacRng::from_rng` / `try_from_rng`** (1024 source bytes read as 256 little-endian words, two
+    passes): distinct byte strings give cores with distinct `mem` arrays. -/
+theorem fromRngCore32_mem_injective (a b : List U8) (ha : a.length = 1024) (hb : b.length = 1024)
+    (h : (init params32 (readU32s a RAND_SIZE).toArray 2).mem =
+         (init params32 (readU32s b RAND_SIZE).toArray 2).mem) : a = b := by
+  have hl : ∀ s : List U8, (readU32s s RAND_SIZE).toArray.size = 256 := fun s => by
+    simp [readU32s, RAND_SIZE]
+  have h1 := init_mem_injective params32 mix32_bijective.1 2 (Or.inr rfl) _ _ (hl a) (hl b) h
+  have h2 : readU32s a RAND_SIZE = readU32s b RAND_SIZE := by
+    simpa using congrArg Array.toList h1
+  exact IsaacInj.readU32s_injective a b 256 (by omega) (by omega) h2
+
+/-- **`Isaac64Rng::from_rng` / `try_from_rng`** (2048 source bytes, 256 little-endian `u64`s). -/
+theorem fromRngCore64_mem_injective (a b : List U8) (ha : a.length = 2048) (hb : b.length = 2048)
+    (h : (init params64 (readU64s a RAND_SIZE).toArray 2).mem =
+         (init params64 (readU64s b RAND_SIZE).toArray 2).mem) : a = b := by
+  have hl : ∀ s : List U8, (readU64s s RAND_SIZE).toArray.size = 256 := fun s => by
+    simp [readU64s, RAND_SIZE]
+  have h1 := init_mem_injective params64 mix64_bijective.1 2 (Or.inr rfl) _ _ (hl a) (hl b) h
+  have h2 : readU64s a RAND_SIZE = readU64s b RAND_SIZE := by
+    simpa using congrArg Array.toList h1
+  exact IsaacInj.readU64s_injective a b 256 (by omega) (by omega) h2
+
 /-- every core built by the four constructors has `a = b = c = 0` and a 256-word `mem` -/
 theorem isaac_constructors_shape (seed : List U8) (x : U64) :
     ((fromSeedCore32 seed).a = 0 ∧ (fromSeedCore32 seed).b = 0 ∧ (fromSeedCore32 seed).c = 0 ∧
@@ -454,6 +487,42 @@ example (seed : List U8) : (fromSeedCore32 seed).mem.size = 256 ∧ (fromSeedCor
 theorem rngstep_mix_injective : IsaacInj.MixInj params32 ∧ IsaacInj.MixInj params64 :=
   ⟨IsaacInj.mixInj32, IsaacInj.mixInj64⟩
 
+/-! # usage: the theorems applied to concrete, different inputs (hypotheses satisfiable) -/
+
+example : (C08.Xoshiro512Plus_shape).zero = S8.zero ∧
+    Xoshiro512Plus.gen.fromSeed? (zeroSeed 64) = Xoshiro512Plus.gen.fromSeed? (zeroExpansion 64) :=
+  ⟨rfl, (fromSeed_zero_collision _ C08.Xoshiro512Plus_shape).1⟩
+
+example : fromSeed32 (List.replicate 32 0) ≠ fromSeed32 (List.replicate 31 0 ++ [1]) := fun h =>
+  absurd (fromSeed32_injective _ _ (by decide) (by decide) h) (by decide)
+
+example : fromSeed64 (List.replicate 32 0) ≠ fromSeed64 (List.replicate 31 0 ++ [1]) := fun h =>
+  absurd (fromSeed64_injective _ _ (by decide) (by decide) h) (by decide)
+
+example : (seedFromU64Core32 1).mem ≠ (seedFromU64Core32 2).mem := fun h =>
+  absurd (seedFromU64Core32_mem_injective _ _ h) (by decide)
+
+example : seedFromU64_64 1 ≠ seedFromU64_64 0x100000001#64 := fun h =>
+  absurd (seedFromU64_64_injective _ _ h) (by decide)
+
+example : init params32 (extend [1]) 1 ≠ init params32 (extend [2]) 1 := fun h => by
+  have h1 := init32_injective 1 (Or.inl rfl) _ _ (IsaacInj.extend_size _ (by decide))
+    (IsaacInj.extend_size _ (by decide)) h
+  have h2 := IsaacInj.extend_injective (l1 := [1]) (l2 := [2]) (by decide) rfl h1
+  exact absurd h2 (by decide)
+
+/-- two seeds that differ in one bit are still different generators after any number `k` of blocks -/
+example (k : Nat) :
+    iter (nextCore params64) k (fromSeedCore64 (List.replicate 32 0)) ≠
+      iter (nextCore params64) k (fromSeedCore64 (List.replicate 31 0 ++ [1])) := fun h =>
+  absurd (fromSeed64_never_merge k _ _ (by decide) (by decide) h) (by decide)
+
+/-- one block of a constructed generator: `generate32_injective` applies (sizes are 256) -/
+example (s1 s2 : List U8) (r : Array U32)
+    (h : (generate params32 (fromSeedCore32 s1) r).2 = (generate params32 (fromSeedCore32 s2) r).2) :
+    fromSeedCore32 s1 = fromSeedCore32 s2 :=
+  generate32_injective _ _ r r (isaac_constructors_shape s1 0).1.2.2.2 (isaac_constructors_shape s2 0).1.2.2.2 h
+
 end Rngs.Extra.SeedInjective
 
 #print axioms Rngs.Extra.SeedInjective.zeroExpansion_64
@@ -480,6 +549,8 @@ end Rngs.Extra.SeedInjective
 #print axioms Rngs.Extra.SeedInjective.seedFromU64Core64_mem_injective
 #print axioms Rngs.Extra.SeedInjective.seedFromU64_32_injective
 #print axioms Rngs.Extra.SeedInjective.seedFromU64_64_injective
+#print axioms Rngs.Extra.SeedInjective.fromRngCore32_mem_injective
+#print axioms Rngs.Extra.SeedInjective.fromRngCore64_mem_injective
 #print axioms Rngs.Extra.SeedInjective.isaac_constructors_shape
 #print axioms Rngs.Extra.SeedInjective.generate_core_eq
 #print axioms Rngs.Extra.SeedInjective.generate_injective
